@@ -264,7 +264,12 @@ class Func(object):
                 e += " ^ (uint32_t)%s ^ (uint32_t)(%s >> 32)" % (v, v)
             lines.append("    return %s;" % e)
         lines.append("}")
-        return "\n".join(lines) + "\n"
+        text = "\n".join(lines) + "\n"
+        if self.only64 and (enabled is None or any(OPS_BY_NAME[s['op']].only64 for i, s in enumerate(self.stmts)
+                                                   if i in enabled)):
+            # 64-bit division / __int128: only for 64-bit targets (library calls or errors elsewhere)
+            text = "#if defined(__LP64__)\n" + text + "#endif\n"
+        return text
 
 
 class CGen(object):
